@@ -573,7 +573,9 @@ class Unit:
 
                     had_semi = src[m["span"][0]:m["span"][1]].rstrip().endswith(b";")
 
-                    def fsel(r, ed=ed, ts=ts, te=te, stmt=had_semi):
+                    selk = sum(1 for m2 in it["macros"][:mi] if m2["path"] == "tokio::select")
+
+                    def fsel(r, ed=ed, ts=ts, te=te, stmt=had_semi, selk=selk):
                         inner = r.render_inside(ed, ts, te)     # nested edits (R1, R10, ...) apply inside the arms
                         inner = strip_tracing(inner, f"{relfile}:{line_of(src, ts)}", lambda note: self.log("R1", relfile, src, ts, note))
                         if "r10" in opts:
@@ -591,10 +593,31 @@ class Unit:
                             mm = re.match(r"(.+?)\.next_frame\(\s*(\w+)\s*,", fut, re.S)
                             cancels.append(f"{mm.group(1)}.cancelled_next_frame({mm.group(2)});" if mm else "")
                         out = "{ "
+                        # R21: timer arms are armed at select entry against the function's ghost clock; the arm that wins
+                        # moves the clock (timer: to its deadline; other arm: to some instant not after any timer's deadline)
+                        timers = {}
+                        if "r21" in opts:
+                            for ai, (pat, fut, body) in enumerate(arms):
+                                tm = re.fullmatch(r"\s*tokio::time::(sleep_until|sleep)\s*\((.*)\)\s*", fut, re.S)
+                                if tm:
+                                    timers[ai] = f"timer__{selk}_{ai}"
+                                    ctor = "timer_until" if tm.group(1) == "sleep_until" else "timer_after"
+                                    out += f"let timer__{selk}_{ai} = clk__.{ctor}({tm.group(2)}); "
+                                elif re.search(r"\btokio::time::", fut):
+                                    raise Unsupported(f"{where}: select! arm uses a tokio::time future the clock model does not cover: `{fut.strip()}`")
+                            self.log("R21", relfile, src, ts, f"select! #{selk}: {len(timers)} timer arm(s) armed against the ghost clock at select entry")
+                        timer_hint = "".join(parts.get(("timer", selk), []))
                         for ai, (pat, fut, body) in enumerate(arms):
                             others = " ".join(c for cj, c in enumerate(cancels) if cj != ai and c)
                             cond = "if crate::shims_nondet::nondet() " if ai < len(arms) - 1 else ""
-                            out += f"{cond}{{ {others} let {pat} = {fut}.await; {body} }}"
+                            if ai in timers:
+                                th = split_hint(timer_hint) if timer_hint.strip() else ""
+                                out += f"{cond}{{ {others} clk__.fire(&{timers[ai]}); let {pat} = ();{th} {body} }}"
+                            elif "r21" in opts:
+                                won = " ".join(f"clk__.won_against(&{t});" for t in timers.values()) if timers else "clk__.elapse();"
+                                out += f"{cond}{{ {others} let {pat} = {fut}.await; {won} {body} }}"
+                            else:
+                                out += f"{cond}{{ {others} let {pat} = {fut}.await; {body} }}"
                             if ai < len(arms) - 1:
                                 out += " else "
                         out += " }"
@@ -685,6 +708,17 @@ class Unit:
                         edits.append(Edit(lbe - 1, lbe - 1, lambda r, end_hint=end_hint: f" proof {{ {end_hint} }} "))
                     if after.strip():
                         edits.append(Edit(le_, le_, lambda r, after=after: ";" + split_hint(after)))
+                    before = "".join(parts.get(("beforeloop", k), []))
+                    if before.strip():
+                        edits.append(Edit(ls_, ls_, lambda r, before=before: split_hint(before)))
+            # R21: ghost clock. Every `.await` outside select! lets an arbitrary amount of time pass
+            if "r21" in opts:
+                for aw in it.get("awaits", []):
+                    as_, ae_ = aw["span"]; ab_s, ab_e = aw["base"]
+                    ed = Edit(as_, ae_, None)
+                    ed.fn = (lambda r, ed=ed, ab_s=ab_s, ab_e=ab_e: "{ let aw__ = " + r.render_inside(ed, ab_s, ab_e) + ".await; clk__.elapse(); aw__ }")
+                    edits.append(ed)
+                self.log("R21", relfile, src, bs, f"{path}: ghost clock `clk__` declared at entry; {len(it.get('awaits', []))} await(s) followed by clk__.elapse(); Instant::now() -> clk__.now()")
             # entry
             entry = "".join(parts.get("entry", []))
             vac = ""
@@ -693,8 +727,10 @@ class Unit:
                 vac = f" assert(false); /*VAC:{vid}*/ "
                 self.vac_ids.append(vid)
                 self.vac_files[vid] = relfile
-            if entry.strip() or vac or r19:
+            if entry.strip() or vac or r19 or "r21" in opts:
                 txt = "".join(f" let mut {nm} = {nm}; " for nm in r19)
+                if "r21" in opts:
+                    txt += " let mut clk__ = crate::shims::tokio::time::Clock::start(); "
                 if vac:
                     txt += f" proof {{ {vac} }} "
                 if entry.strip():
@@ -705,15 +741,27 @@ class Unit:
             # match / if / block structure), in source order
             exits = [x["span"] for x in it["returns"] if not x["in_closure"]]
             exits += [x for x in it.get("leaf_tails", []) if x not in exits]
+            if it.get("tail") is None and it["macros"]:
+                # a trailing `tokio::select! { .. }` without semicolon is the function's tail expression
+                lm = max(it["macros"], key=lambda m2: m2["span"][1])
+                if lm["path"] == "tokio::select" and src[lm["span"][1]:be - 1].strip() == b"" and not src[lm["span"][0]:lm["span"][1]].rstrip().endswith(b";"):
+                    exits.append(lm["span"])
             exits.sort()
+            if ("exit", -1) in parts and not exits:
+                raise AnchorLost(f"{where}: `exit *` hint but the function has no exit the extractor can see")
             for m_, sp_ in enumerate(exits):
-                hint = "".join(parts.get(("exit", m_), []))
+                hint = "".join(parts.get(("exit", -1), [])) + "".join(parts.get(("exit", m_), []))
                 if not hint.strip():
                     continue
-                ed = Edit(sp_[0], sp_[1], None)
+                ed = Edit(sp_[0], sp_[1], None, prio=-1)
                 if "r__" in hint:
                     # the hint talks about the value being returned: bind it first
-                    ed.fn = (lambda r, ed=ed, sp_=sp_, hint=hint: "{ let r__ = " + r.render_inside(ed, sp_[0], sp_[1]) + "; proof { " + hint + " } r__ }")
+                    def fex(r, ed=ed, sp_=sp_, hint=hint):
+                        t = r.render_inside(ed, sp_[0], sp_[1])
+                        if re.match(r"return\b", t):
+                            return "{ let r__ = " + (t[6:].strip() or "()") + "; proof { " + hint + " } return r__; }"
+                        return "{ let r__ = " + t + "; proof { " + hint + " } r__ }"
+                    ed.fn = fex
                 else:
                     ed.fn = (lambda r, ed=ed, sp_=sp_, hint=hint: "{ proof { " + hint + " } " + r.render_inside(ed, sp_[0], sp_[1]) + " }")
                 edits.append(ed)
@@ -749,11 +797,62 @@ class Unit:
                 ed.fn = fcl
                 edits.append(ed)
                 self.log("R16", relfile, src, cs, f"{path}: closure {ci} given a typed header and a contract")
+            # R22: `async move { .. }` blocks are hoisted into associated async fns (the installed Verus has no generator types);
+            # the template gives the hoisted function's header (the captured variables with their types) and contract, the body is
+            # the block's own text. A capture list that does not match the block does not compile (reported as undecided).
+            hoisted = []
+            for k, ab in enumerate(it.get("async_blocks", [])):
+                hdr_lines = parts.get(("async", k), [])
+                if not hdr_lines:
+                    continue
+                hdr = "".join(hdr_lines)
+                mh = re.match(r"\s*pub async fn (\w+)\s*\((.*?)\)\s*->", hdr, re.S)
+                if not mh:
+                    raise Unsupported(f"{where}: malformed `//@async {k}|` header")
+                hname = mh.group(1)
+                prms, depth_, cur = [], 0, ""
+                for ch in mh.group(2):
+                    if ch in "<([":
+                        depth_ += 1
+                    elif ch in ">)]":
+                        depth_ -= 1
+                    if ch == "," and depth_ == 0:
+                        prms.append(cur); cur = ""
+                    else:
+                        cur += ch
+                if cur.strip():
+                    prms.append(cur)
+                names, muts = [], []
+                for prm in prms:
+                    nm = prm.split(":", 1)[0].strip()
+                    if nm.startswith("mut "):
+                        nm = nm[4:].strip(); muts.append(nm)
+                    names.append(nm)
+                hdr = re.sub(r"\bmut\s+(\w+)\s*:", r"\1:", hdr, count=0) if muts else hdr
+                as_, ae_ = ab["span"]; kbs, kbe = ab["block"]
+                blk_txt = src[kbs:kbe].decode()
+                for nm in names:
+                    if not re.search(r"\b" + re.escape(nm) + r"\b", blk_txt):
+                        raise AnchorLost(f"{where}: async block {k} no longer uses captured variable `{nm}`")
+                endh = "".join(parts.get(("asyncend", k), []))
+                ed = Edit(as_, ae_, None)
+                slot = {}
+
+                def fab(r, ed=ed, kbs=kbs, kbe=kbe, hname=hname, names=names, slot=slot):
+                    slot["body"] = r.render_inside(ed, kbs + 1, kbe - 1)
+                    return f"Self::{hname}({', '.join(names)})"
+                ed.fn = fab
+                edits.append(ed)
+                hoisted.append((k, hname, hdr, muts, endh, slot, hdr_lines))
+                self.log("R22", relfile, src, as_, f"{path}: async block {k} hoisted into `{hname}` (captures: {', '.join(names)})")
             for key in parts:
                 if isinstance(key, tuple):
                     kind, k = key
+                    nsel = sum(1 for m2 in it["macros"] if m2["path"] == "tokio::select")
                     lim = {"loop": len(it["loops"]), "loopstart": len(it["loops"]), "loopend": len(it["loops"]),
-                           "afterloop": len(it["loops"]), "exit": len(exits), "tryexit": len(it["tries"]),
+                           "afterloop": len(it["loops"]), "beforeloop": len(it["loops"]), "timer": nsel,
+                           "async": len(it.get("async_blocks", [])), "asyncend": len(it.get("async_blocks", [])),
+                           "exit": len(exits), "tryexit": len(it["tries"]),
                            "closure": len(it.get("closures", []))}[kind]
                     if k >= lim:
                         raise AnchorLost(f"{where}: template refers to {kind} {k} but the function has only {lim}")
@@ -791,8 +890,37 @@ class Unit:
         else:
             bs, be = it["body"]
             btxt = r.render(bs, be)
+            if "r21" in opts:
+                btxt = re.sub(r"\b(?:tokio::time::)?Instant::now\(\)", "clk__.now()", btxt)
             self.emit(btxt + "\n", {"kind": "body", "file": relfile, "fn": fname, "line": line_of(src, bs), "tags": tags,
                                     "src_first_line": line_of(src, bs)})
+        if body and not ext_body:
+            for (k, hname, hdr, muts, endh, slot, hdr_lines) in hoisted:
+                hpath = f"{path}#async{k}"
+                org = {"kind": "sig", "file": relfile, "fn": hpath, "line": line_of(src, it["async_blocks"][k]["span"][0]), "tags": tags}
+                first = True
+                for hl in hdr_lines:
+                    hl2 = re.sub(r"\bmut\s+(\w+)\s*:", r"\1:", hl) if muts else hl
+                    if first or not hl.strip() or hl.strip().startswith("pub async fn"):
+                        self.emit(hl2, org)
+                    else:
+                        ctags = re.findall(r"\[(C\d+)\]", hl)
+                        self.emit(hl2, {"kind": "clause", "fn": hpath, "file": relfile, "idx": 0, "tags": sorted(set(tags + ctags)) if ctags else tags,
+                                        "tpl": tpl_origin, "text": hl.strip()})
+                    first = False
+                pre = "".join(f" let mut {nm} = {nm}; " for nm in muts)
+                if self.vacuity and "novac" not in opts:
+                    vid = f"{hpath}#entry"
+                    pre += f" proof {{ assert(false); /*VAC:{vid}*/ }} "
+                    self.vac_ids.append(vid)
+                    self.vac_files[vid] = relfile
+                tail = split_hint(endh) if endh.strip() else ""
+                self.emit("{" + pre + slot.get("body", "") + tail + "}\n",
+                          {"kind": "body", "file": relfile, "fn": hpath, "line": line_of(src, it["async_blocks"][k]["block"][0]), "tags": tags,
+                           "src_first_line": line_of(src, it["async_blocks"][k]["block"][0])})
+                self.functions.append({"file": relfile, "path": hpath, "tags": tags, "ext_body": False,
+                                       "sha256": hashlib.sha256(src[it["async_blocks"][k]["span"][0]:it["async_blocks"][k]["span"][1]]).hexdigest(),
+                                       "src_line": line_of(src, it["async_blocks"][k]["span"][0]), "emitted_as": hname, "decl": False})
         self.functions.append({
             "file": relfile, "path": path, "tags": tags, "ext_body": ext_body,
             "sha256": hashlib.sha256(src[s:e]).hexdigest(),
@@ -874,7 +1002,7 @@ class Unit:
                 parts = {}
                 while i < n:
                     st2 = lines[i].strip()
-                    m = re.match(r"//@(\||loop\s+\d+\||entry\||exit\s+\d+\||tryexit\s+\d+\||loopstart\s+\d+\||loopend\s+\d+\||afterloop\s+\d+\||closure\s+\d+\|)(.*)$", st2)
+                    m = re.match(r"//@(\||loop\s+\d+\||entry\||exit\s+(?:\d+|\*)\||tryexit\s+\d+\||loopstart\s+\d+\||loopend\s+\d+\||afterloop\s+\d+\||beforeloop\s+\d+\||timer\s+\d+\||async\s+\d+\||asyncend\s+\d+\||closure\s+\d+\|)(.*)$", st2)
                     if not m:
                         break
                     kind = m.group(1)[:-1].strip()
@@ -886,7 +1014,7 @@ class Unit:
                         parts.setdefault("entry", []).append(text + "\n")
                     else:
                         kk, num = kind.split()
-                        parts.setdefault((kk, int(num)), []).append(text + "\n")
+                        parts.setdefault((kk, -1 if num == "*" else int(num)), []).append(text + "\n")
                     i += 1
                 if isfn:
                     self.do_fn(relfile, path, opts, parts, origin)
